@@ -9,7 +9,7 @@ scratch copy is removed afterwards.  Usage: tools/mutate.py [id-substring ...]
 import json, os, shutil, subprocess, sys, tempfile
 ROOT = os.path.dirname(os.path.dirname(os.path.abspath(__file__)))
 ENV = dict(os.environ, GOFLAGS='-mod=mod', GOPROXY='off', GOSUMDB='off', GOTOOLCHAIN='local')
-muts = json.load(open(os.path.join(ROOT, 'tools', 'mutants.json')))
+muts = json.load(open(os.path.join(ROOT, 'tools', 'mutants.json'))) + json.load(open(os.path.join(ROOT, 'tools', 'neutral.json')))
 sel = sys.argv[1:]
 fail = 0
 for m in muts:
@@ -25,6 +25,18 @@ for m in muts:
         for e in m.get('edits', []):
             p = os.path.join(d, e['file'])
             s = open(p).read()
+            if 'func' in e:
+                # consistent rename of identifiers inside one function (a behaviour-preserving refactor)
+                import re
+                mm = re.search(r'^func [^\n]*\b' + re.escape(e['func']) + r'\(', s, re.M)
+                if not mm:
+                    print('MUTANT-STALE', m['id'], 'function not found', e['func']); fail += 1; break
+                end = s.index('\n}\n', mm.start()) + 3
+                body = s[mm.start():end]
+                for a, b in e['rename'].items():
+                    body = re.sub(r'(?<![A-Za-z0-9_.])' + re.escape(a) + r'(?![A-Za-z0-9_])', b, body)
+                open(p, 'w').write(s[:mm.start()] + body + s[end:])
+                continue
             if s.count(e['old']) < 1:
                 print('MUTANT-STALE', m['id'], 'pattern not found in', e['file']); fail += 1; break
             s = s.replace(e['old'], e['new'], e.get('count', 1))
@@ -36,6 +48,14 @@ for m in muts:
             ev = os.path.join(d, '.evidence')
             r = subprocess.run([os.path.join(ROOT, 'bin', 'vcheck'), m['property'], '--tier', m.get('tier', 'quick')],
                                env=dict(ENV, VERIF_REPO=d, VERIF_EVIDENCE_DIR=ev), capture_output=True, text=True)
+            if m.get('neutral'):
+                # behaviour-preserving edit: every check must stay silent
+                quiet = r.returncode == 0 and 'VIOLATION' not in r.stdout
+                print(('QUIET ' if quiet else 'FALSE-ALARM ') + m['id'])
+                if not quiet:
+                    fail += 1
+                    print('\n'.join(l[:400] for l in r.stdout.splitlines() if 'VIOLATED' in l or 'UNDECIDED' in l or 'VIOLATION' in l)[:3000])
+                continue
             hit = r.returncode == 1 and 'VIOLATION property=' + m['property'] in r.stdout and m['expect'] in r.stdout
             print(('CAUGHT ' if hit else 'MISSED ') + m['id'])
             if not hit:
